@@ -433,12 +433,15 @@ class MCNP_Problem:
                             warning.handled = True
                     for line in lines:
                         fh.write(line + "\n")
+                if objects is self.data_inputs:
+                    # cell modifier inputs belong inside the data block:
+                    # MCNP ignores everything after the blank line that ends it
+                    for line in self.cells._run_children_format_for_mcnp(
+                        self.data_inputs, self.mcnp_version
+                    ):
+                        fh.write(line + "\n")
                 if terminate:
                     fh.write("\n")
-            for line in self.cells._run_children_format_for_mcnp(
-                self.data_inputs, self.mcnp_version
-            ):
-                fh.write(line + "\n")
 
             fh.write("\n")
         self._handle_warnings(warning_catch)
